@@ -14,7 +14,7 @@ def parse_doms(s):
 def parse_sols(s):
     s = s.strip()
     if s == "-" or s == "": return []
-    return [tuple(int(x) for x in t.split(",")) for t in s.split(" ")]
+    return [tuple(int(x) for x in t.split(",") if x != "") for t in s.split(" ")]
 
 # ---------------------------------------------------------------- judges
 def judge_prop(case, impl, spec):
